@@ -557,7 +557,16 @@ pub fn mutate(s: &str, rng: &mut Rng, ev: Ev) -> String {
     let n_edits = 1 + rng.below(2);
     for _ in 0..n_edits {
         let pos = if cs.is_empty() { 0 } else { rng.below(cs.len() + 1) };
-        match rng.below(9) {
+        match rng.below(11) {
+            9 if cs.len() >= 2 => {
+                // incomplete input: cut the expression short
+                cs.truncate(1 + rng.below(cs.len() - 1));
+            }
+            10 => {
+                // dangling token at the end
+                let p = rng.pick(&pieces).clone();
+                cs.extend(p.chars());
+            }
             0 if !cs.is_empty() => {
                 cs.remove(pos.min(cs.len() - 1));
             }
